@@ -87,7 +87,7 @@ def near_special(rng: random.Random, count: int) -> list[tuple]:
         k = rng.choice([1, 2, 3, 5, 7, 10])
         kind = rng.randrange(12)
         if kind == 0:
-            n = rng.choice([2, 3, 4, 5, 6, 7, 8, 10, 11])
+            n = rng.choice([2, 3, 4, 5, 6, 7, 8, 9, 10, 11, 12, 13, 15, 21, 27, 33])
             v = float(k ** n) * (1 + d)
             if n % 2 == 1 and rng.random() < 0.4:
                 v = -v
